@@ -460,7 +460,7 @@ def methods(draw, u, it, name):
     pnames = draw(unique_idents(p, n + 1, avoid=["self", "this"], position="param"))
     params = []
     for i in range(n):
-        if p["callbacks"] and draw(st.integers(0, p.get("cb_rate", 10) - 1)) == 0:
+        if p["callbacks"] and (kind == "struct" or not p.get("cb_struct_methods_only")) and draw(st.integers(0, p.get("cb_rate", 10) - 1)) == 0:
             ty = draw(callback_types(u))
         else:
             ty = draw(input_types(u, lt_pool))
